@@ -76,6 +76,7 @@ type c19Decl struct {
 	implName string
 	outFile  string
 	decoys   []string
+	comment  string // a line the emitted struct comment must contain verbatim
 }
 
 // docGroup builds an attached doc comment from settings with interspersed noise.
@@ -148,7 +149,10 @@ func c19File(r *rand.Rand, pkg string, idx int) (string, []*c19Decl) {
 			d.kind = "iface"
 			settings := []string{"converter", "name " + d.implName, "output:file " + d.outFile}
 			if r.Intn(2) == 0 {
-				settings = append(settings, "struct:comment generated for "+id)
+				// the value is the text after the FIRST space: further leading blanks belong to it
+				// observed through output:raw lines that form a raw string literal (gofmt leaves its content alone)
+				settings = append(settings, "output:raw var Raw"+id+" = `", "output:raw     indented four for "+id, "output:raw `")
+				d.comment = "\n    indented four for " + id + "\n"
 			}
 			doc, exp := docGroup(r, "", settings, "name "+decoyName+"b")
 			d.expConv = exp
@@ -416,6 +420,9 @@ func C19(e *core.Env) int {
 			body := gr.Files[filepath.Clean(d.outFile)]
 			if strings.Contains(body, "Decoy") {
 				bad("effect_decoy", "a decoy name appears in the output", head(body, 800))
+			}
+			if d.comment != "" && !strings.Contains(body, d.comment) {
+				bad("effect_value", "the value of a setting is not the text after the first space (leading blanks of the value were lost)", "want line: "+d.comment+"\n"+head(body, 800))
 			}
 			if d.kind == "iface" && !strings.Contains(body, "type "+d.implName+" struct{}") {
 				bad("effect_name", "the attached name setting did not take effect", head(body, 800))
